@@ -85,7 +85,7 @@ func agentCrossCheck(s *sut.SUT, c *ev.Check, items []Item, fsets []Flags) {
 			}
 			if string(cli[i].Out) != a {
 				sn := Seen{Item: sub[i], Flags: f, Res: cli[i]}
-				c.Violation("cli-vs-library|"+sub[i].Case.Verb, fmt.Sprintf("CLI and in-process output differ under flags %s (flag wiring): cli=%s lib=%s", f, short(cli[i].Out, 200), trunc(a, 200)),
+				c.Violation("cli-vs-library|"+sub[i].Label(), fmt.Sprintf("CLI and in-process output differ under flags %s (flag wiring): cli=%s lib=%s", f, short(cli[i].Out, 200), trunc(a, 200)),
 					replayOf(sn, map[string]any{"library_output": a}))
 			}
 		}
